@@ -49,12 +49,59 @@ class SFixture:
         return json.dumps({"plate_of": [r[0] for r in self.rows], "klass": [k((r[1], r[2], r[3])) for r in self.rows]})
 
 
-def real_round(fx, observed, batch, nchunks, level_of, order, allowed, tmp, rnd, cli=False):
+def _aux_files(scr, tmp):
+    """a minimal posterior-sample file and a complete distance matrix, so that the calculate_scores command can be run"""
+    from batchie.core import ThetaHolder
+    from batchie.data import ExperimentSpace
+    from batchie.distance_calculation import ChunkedDistanceMatrix
+    from batchie.models.sparse_combo import SparseDrugComboMCMCSample
+    sp = ExperimentSpace.from_screen(scr)
+    h = ThetaHolder(n_thetas=3)
+    g = np.random.default_rng(1)
+    for _ in range(3):
+        h.add_theta(SparseDrugComboMCMCSample(W=g.normal(size=(sp.n_unique_samples, 1)), W0=g.normal(size=sp.n_unique_samples), V2=g.normal(size=(sp.n_unique_treatments, 1)),
+                                              V1=g.normal(size=(sp.n_unique_treatments, 1)), V0=g.normal(size=sp.n_unique_treatments), alpha=0.0, precision=1.0))
+    tfn, dfn = os.path.join(tmp, "aux_thetas.h5"), os.path.join(tmp, "aux_dist.h5")
+    if os.path.exists(tfn) and os.path.exists(dfn) and _aux_files.key == (sp.n_unique_samples, sp.n_unique_treatments):
+        return tfn, dfn
+    _aux_files.key = (sp.n_unique_samples, sp.n_unique_treatments)
+    h.save_h5(tfn)
+    dm = ChunkedDistanceMatrix(3)
+    for i, j, v in ((1, 0, 0.5), (2, 0, 0.25), (2, 1, 0.75)):
+        dm.add_value(i, j, v)
+    dm.save(dfn)
+    return tfn, dfn
+
+
+_aux_files.key = None
+
+
+def real_round(fx, observed, batch, nchunks, level_of, order, allowed, tmp, rnd, cli=False, cli_scores=False):
     scr = fx.screen(set(observed))
-    t = {"observed": sorted(observed), "batch": sorted(batch), "nchunks": nchunks,
+    t = {"observed": sorted(observed), "batch": sorted(batch), "nchunks": nchunks, "size_mode": bool(cli_scores),
          "score": [level_of.get(p, 0) for p in range(max(r[0] for r in fx.rows) + 1)], "chunks": []}
     files = []
-    for i in range(nchunks):
+    if cli_scores:
+        # the real calculate_scores command (plate ids on the command line), shipped SizeScorer
+        from batchie.cli import calculate_scores as cs_mod
+        sfn = os.path.join(tmp, "screen_for_scores.h5")
+        scr.save_h5(sfn)
+        tfn, dfn = _aux_files(scr, tmp)
+        for i in range(nchunks):
+            fn = os.path.join(tmp, "scores_%d.h5" % i)
+            old = sys.argv
+            sys.argv = ["x", "--data", sfn, "--thetas", tfn, "--distance-matrix", dfn, "--n-chunks", str(nchunks), "--chunk-index", str(i), "--scorer", "SizeScorer",
+                        "--output", fn] + (["--batch-plate-ids"] + [str(b) for b in sorted(batch)] if batch else [])
+            try:
+                st, r = outcome(cs_mod.main)
+            finally:
+                sys.argv = old
+            if st != "ok":
+                return {"raised": "calculate_scores CLI (chunk %d of %d): %s" % (i, nchunks, r)}
+            hh = ChunkedScoresHolder.load_h5(fn)
+            t["chunks"].append({"plates": [int(x) for x in hh.plate_ids], "rows": []})
+            files.append(fn)
+    for i in range(nchunks if not cli_scores else 0):
         sc = RecScorer(level_of)
         st, h = outcome(score_chunk, sc, None, scr, None, np.random.default_rng(0), False, nchunks, i, list(batch) if batch else None)
         if st != "ok":
@@ -88,7 +135,7 @@ def real_round(fx, observed, batch, nchunks, level_of, order, allowed, tmp, rnd,
     if st != "ok":
         return {"raised": "concat: " + comb}
     inv = {v: k for k, v in LEVEL.items()}
-    t["holder"] = [[int(p), inv.get(float(s), 9)] for p, s in zip(comb.plate_ids, comb.scores)]
+    t["holder"] = [[int(p), (int(s) if cli_scores else inv.get(float(s), 9))] for p, s in zip(comb.plate_ids, comb.scores)]
     t["order_cat"] = [p for i in order for p in t["chunks"][i]["plates"]]
     if not cli:
         pol = StubPolicy(allowed) if allowed is not None else None
@@ -158,7 +205,7 @@ def run(ctx):
             # (C) random rounds incl. more chunks than plates, the CLI, no policy
             traces = []
             npl = max(r_[0] for r_ in fx.rows) + 1
-            for _ in range(120 if ctx.quick else 1500):
+            for _ in range(80 if ctx.quick else 1500):
                 observed = {p for p in range(npl) if rnd.random() < 0.3}
                 batch = {p for p in range(npl) if rnd.random() < 0.3}
                 n = rnd.choice([1, 2, 3, 5, 9])
@@ -168,7 +215,7 @@ def run(ctx):
                 cand = [p for p in range(npl) if p not in observed and p not in batch]
                 mode = rnd.random()
                 allowed = None if mode < 0.4 else sorted(rnd.sample(cand, rnd.randint(0, len(cand))))
-                traces.append(real_round(fx, observed, batch, n, level_of, order, allowed, tmp, rnd, cli=(mode < 0.15)))
+                traces.append(real_round(fx, observed, batch, n, level_of, order, allowed, tmp, rnd, cli=(mode < 0.12), cli_scores=(0.12 <= mode < 0.3)))
             ok = []
             for t in traces:
                 if "raised" in t:
